@@ -240,15 +240,23 @@ def _main(a, pid, tier, seed, t0):
         # a tie broke: search the implementation for a concrete failing input with 10x budget
         escalated = True
         rng2 = random.Random(f"{pid}-{seed}-escalated")
-        for cl in clauses:
-            if cl.kind != "oracle":
-                continue
-            st = {}
-            f, e, d, s = run_clause(cl, rng2, 10 * cl.budget.get(tier, cl.budget["quick"]), driver, st)
-            stats[cl.name + "@x10"] = st[cl.name]
-            all_fail += f
-            ev += e
-            dn += d
+        real_already = [f for f in all_fail if f["kind"] == "oracle" or f.get("property_failure")]
+        try:
+            for cl in clauses:
+                if cl.kind != "oracle" or real_already:
+                    continue          # a concrete failing input is already in hand: no need to search further
+                st = {}
+                f, e, d, s = run_clause(cl, rng2, 10 * cl.budget.get(tier, cl.budget["quick"]), driver, st)
+                stats[cl.name + "@x10"] = st[cl.name]
+                all_fail += f
+                ev += e
+                dn += d
+                if f:
+                    break
+        except Timeout:
+            # the escalated search ran out of time: report what the regular stages found (never turn a
+            # broken tie into an infrastructure error)
+            escalated = "timed out"
 
     # ---------------------------------------------------------------- verdict
     os.makedirs(os.path.join(VERIF, "replays"), exist_ok=True)
